@@ -347,3 +347,219 @@ func Harness_C18_KillAndTestaments() {
 	}
 	vCover("kill-checked")
 }
+
+// what a killed session held is gone from the registration and subscription
+// meta API and from routing, and its disappearance is announced - whichever
+// kill procedure ended it
+func Harness_C18_MetaViewAfterKill() {
+	r := vNewRouter(&Config{RealmConfigs: []*RealmConfig{{URI: "realm1", AnonymousAuth: true, EnableMetaKill: true}}})
+	admin := vAttach(r, "realm1", wamp.Dict{"roles": vAllRoles, "authid": "admin"}, 64)
+	s1 := vAttach(r, "realm1", wamp.Dict{"roles": vAllRoles, "authid": "alice"}, 64)
+	s2 := vAttach(r, "realm1", wamp.Dict{"roles": vAllRoles, "authid": "bob"}, 64)
+	vAssert("attached", admin != nil && s1 != nil && s2 != nil)
+	if admin == nil || s1 == nil || s2 == nil {
+		return
+	}
+	s1.send(&wamp.Register{Request: 1, Procedure: "s1.proc"})
+	s1.send(&wamp.Subscribe{Request: 2, Topic: "s1.topic"})
+	s1.drain()
+	shared := vBool("s2-shares-the-subscription")
+	if shared {
+		s2.send(&wamp.Subscribe{Request: 2, Topic: "s1.topic"})
+		s2.drain()
+	}
+	// the admin watches registration and subscription meta events
+	admin.send(&wamp.Subscribe{Request: 1, Topic: "wamp.registration.", Options: wamp.Dict{"match": "prefix"}})
+	admin.send(&wamp.Subscribe{Request: 2, Topic: "wamp.subscription.", Options: wamp.Dict{"match": "prefix"}})
+	admin.drain()
+	way := vChoice("kill-procedure", 4)
+	s2Killed := false
+	var rest []wamp.Message
+	switch way {
+	case 0:
+		_, _, rest = admin.metaCall(wamp.MetaProcSessionKill, wamp.List{s1.id}, nil)
+	case 1:
+		_, _, rest = admin.metaCall(wamp.MetaProcSessionKillByAuthid, wamp.List{"alice"}, nil)
+	case 2:
+		_, _, rest = admin.metaCall(wamp.MetaProcSessionKillByAuthrole, wamp.List{"trusted"}, nil)
+		s2Killed = true
+	case 3:
+		_, _, rest = admin.metaCall(wamp.MetaProcSessionKillAll, nil, nil)
+		s2Killed = true
+	}
+	rest = append(rest, admin.drain()...)
+	_, ng := vFindMsg[*wamp.Goodbye](s1.drain())
+	vAssert("target-killed", ng == 1)
+	// announced: the registration went away, the subscription lost a member
+	// (and went away unless the surviving session shares it)
+	var regEv, subEv []wamp.URI
+	for _, t := range vTopics(rest) {
+		if len(t) > 18 && t[:18] == "wamp.registration." {
+			regEv = append(regEv, t)
+		} else {
+			subEv = append(subEv, t)
+		}
+	}
+	vAssert("registration-end-announced-once-in-order", vSameTopics(regEv, wamp.MetaEventRegOnUnregister, wamp.MetaEventRegOnDelete))
+	if shared && !s2Killed {
+		vAssert("subscription-change-announced", vSameTopics(subEv, wamp.MetaEventSubOnUnsubscribe))
+	} else if shared {
+		vAssert("subscription-end-announced", vSameTopics(subEv, wamp.MetaEventSubOnUnsubscribe, wamp.MetaEventSubOnUnsubscribe, wamp.MetaEventSubOnDelete))
+	} else {
+		vAssert("subscription-end-announced", vSameTopics(subEv, wamp.MetaEventSubOnUnsubscribe, wamp.MetaEventSubOnDelete))
+	}
+	// the meta view
+	notFound := func(res *wamp.Result) bool {
+		// (nexus answers a lookup that finds nothing with the id 0)
+		if res == nil {
+			return false
+		}
+		if len(res.Arguments) == 0 || res.Arguments[0] == nil {
+			return true
+		}
+		id, ok := wamp.AsInt64(res.Arguments[0])
+		return ok && id == 0
+	}
+	res, _, _ := admin.metaCall(wamp.MetaProcRegLookup, wamp.List{"s1.proc"}, nil)
+	vAssert("registration-no-longer-found", notFound(res))
+	res, _, _ = admin.metaCall(wamp.MetaProcSubLookup, wamp.List{"s1.topic"}, nil)
+	if shared && !s2Killed {
+		vAssert("shared-subscription-still-found", res != nil && !notFound(res))
+	} else {
+		vAssert("subscription-no-longer-found", notFound(res))
+	}
+	res, _, _ = admin.metaCall(wamp.MetaProcSessionCount, nil, nil)
+	want := int64(2)
+	if s2Killed {
+		want = 1
+	}
+	if res != nil && len(res.Arguments) == 1 {
+		n, _ := wamp.AsInt64(res.Arguments[0])
+		vAssert("session-count", n == want)
+	}
+	// and routing agrees with the meta view
+	admin.send(&wamp.Call{Request: 77, Procedure: "s1.proc"})
+	e, ne := vFindMsg[*wamp.Error](admin.drain())
+	vAssert("routing-agrees-with-lookup", ne == 1 && e.Request == 77 && e.Error == wamp.ErrNoSuchProcedure)
+	r.Close()
+	vCover("meta-view-after-kill-checked")
+}
+
+// A session's on_join is an event of the moment it joined. Whatever the
+// realm's workers are doing at that moment (stall exploration: the goroutine
+// that carries the announcement is descheduled after its k-th synchronisation
+// operation), a subscription that the session itself makes after it was
+// welcomed does not receive the announcement of that very join; a subscription
+// that existed before receives it exactly once.
+func Harness_C18_JoinAnnouncedAsOfTheJoin() {
+	r := vNewRouter(&Config{RealmConfigs: []*RealmConfig{{URI: "realm1", AnonymousAuth: true}}})
+	obs := vAttach(r, "realm1", nil, 32)
+	vAssert("observer-attached", obs != nil)
+	if obs == nil {
+		return
+	}
+	obs.send(&wamp.Subscribe{Request: 1, Topic: wamp.MetaEventSessionOnJoin})
+	obs.drain()
+	k := vChoice("stall-after", 4)
+	vStallFunc("handleInboundMessages", k)
+	s := vAttach(r, "realm1", nil, 32) // returns once WELCOME was received
+	vAssert("attached", s != nil)
+	if s == nil {
+		vStallFunc("", 0)
+		vStallRelease()
+		return
+	}
+	s.send(&wamp.Subscribe{Request: 1, Topic: wamp.MetaEventSessionOnJoin})
+	got := s.drain()
+	vStallFunc("", 0)
+	vStallRelease()
+	got = append(got, s.drain()...)
+	_, nsub := vFindMsg[*wamp.Subscribed](got)
+	vAssert("subscribed", nsub == 1)
+	_, nev := vFindMsg[*wamp.Event](got)
+	vAssert("own-join-not-announced-to-a-subscription-made-after-it", nev == 0)
+	_, nobs := vFindMsg[*wamp.Event](obs.drain())
+	vAssert("join-announced-once-to-earlier-subscribers", nobs == 1)
+	r.Close()
+	vCover("join-announcement-checked")
+}
+
+// match agrees with routing: for subscriptions and registrations under every
+// policy, wamp.subscription.match lists exactly the subscriptions on which a
+// publication to the topic is delivered, and wamp.registration.match names
+// the registration a call to the procedure is routed to
+func Harness_C18_MatchAgreesWithRouting() {
+	r := vNewRouter(&Config{RealmConfigs: []*RealmConfig{{URI: "realm1", AnonymousAuth: true}}})
+	holder := vAttach(r, "realm1", nil, 64)
+	asker := vAttach(r, "realm1", nil, 64)
+	vAssert("attached", holder != nil && asker != nil)
+	if holder == nil || asker == nil {
+		return
+	}
+	type pat struct {
+		uri   wamp.URI
+		match string
+	}
+	pool := []pat{{"a.b", wamp.MatchExact}, {"a.", wamp.MatchPrefix}, {"a.b.c", wamp.MatchPrefix}, {"a..c", wamp.MatchWildcard}, {".b", wamp.MatchWildcard}, {"a.b.c.d", wamp.MatchExact}}
+	probes := []wamp.URI{"a.b", "a.b.c", "a", "x.b", "a.b.c.d"}
+	regs := vBool("registrations-instead-of-subscriptions")
+	used := map[int]bool{}
+	for k := 0; k < 3; k++ {
+		i := vChoice("pattern", len(pool))
+		if used[i] {
+			continue
+		}
+		used[i] = true
+		opts := wamp.Dict{}
+		if pool[i].match != wamp.MatchExact {
+			opts["match"] = pool[i].match
+		}
+		if regs {
+			holder.send(&wamp.Register{Request: wamp.ID(10 + k), Procedure: pool[i].uri, Options: opts})
+		} else {
+			holder.send(&wamp.Subscribe{Request: wamp.ID(10 + k), Topic: pool[i].uri, Options: opts})
+		}
+		holder.drain()
+	}
+	probe := probes[vChoice("probe", len(probes))]
+	if regs {
+		res, _, _ := asker.metaCall(wamp.MetaProcRegMatch, wamp.List{probe}, nil)
+		var matched wamp.ID
+		if res != nil && len(res.Arguments) == 1 && res.Arguments[0] != nil {
+			matched, _ = wamp.AsID(res.Arguments[0])
+		}
+		asker.send(&wamp.Call{Request: 70, Procedure: probe})
+		am := asker.drain()
+		inv, ninv := vFindMsg[*wamp.Invocation](holder.drain())
+		if ninv == 1 {
+			vAssert("registration-match-names-the-registration-the-call-is-routed-to", matched == inv.Registration)
+			vCover("call-routed")
+		} else {
+			e, ne := vFindMsg[*wamp.Error](am)
+			vAssert("unrouted-call-refused", ne == 1 && e.Error == wamp.ErrNoSuchProcedure)
+			vAssert("registration-match-finds-nothing-when-no-call-is-routed", matched == 0)
+		}
+		r.Close()
+		return
+	}
+	res, _, _ := asker.metaCall(wamp.MetaProcSubMatch, wamp.List{probe}, nil)
+	var ids []wamp.ID
+	if res != nil && len(res.Arguments) == 1 && res.Arguments[0] != nil {
+		ids, _ = vIDList(res.Arguments[0])
+	}
+	asker.send(&wamp.Publish{Request: 70, Topic: probe})
+	var delivered []wamp.ID
+	for _, m := range holder.drain() {
+		if e, ok := m.(*wamp.Event); ok {
+			delivered = append(delivered, e.Subscription)
+		}
+	}
+	vAssert("subscription-match-lists-as-many-as-deliver", len(ids) == len(delivered))
+	for _, d := range delivered {
+		vAssert("every-delivering-subscription-is-listed", vHasID(ids, d))
+	}
+	if len(delivered) >= 2 {
+		vCover("several-subscriptions-deliver")
+	}
+	r.Close()
+}
